@@ -27,6 +27,10 @@ QUOT = ('.cwiseQuotient',)
 REDUCE = ('.all', '.prod', '.any', '.minCoeff', '.maxCoeff')      # reductions over the coordinates: identity on one generic coordinate
 
 
+MACHINE = {'double': {'epsilon': 2.0 ** -52, 'min': 2.0 ** -1022, 'max': 1.7976931348623157e308, 'lowest': -1.7976931348623157e308, 'infinity': float('inf'), 'quiet_NaN': float('nan'), 'denorm_min': 5e-324},
+           'float': {'epsilon': 2.0 ** -23, 'min': 2.0 ** -126, 'max': 3.4028234663852886e38, 'lowest': -3.4028234663852886e38, 'infinity': float('inf'), 'quiet_NaN': float('nan'), 'denorm_min': 2.0 ** -149}}
+
+
 class Returned(Exception):
     def __init__(self, v):
         self.v = v
@@ -40,6 +44,7 @@ class Step:
         self.unwrap = unwrap                  # normaliser of s-expressions (erases Eigen wrappers / casts)
         self.index_vars = set(index_vars)     # component loop variables: X[i] is the scalar X
         self.aliases = dict(aliases or {})    # local reference name -> key
+        self.hooks = {}                       # operator -> callable(expr, env): caller-supplied meaning of a call
 
     def key(self, t):
         while isinstance(t, tuple):
@@ -65,11 +70,24 @@ class Step:
             raise Unsupported('unknown name %s' % t)
         if not isinstance(t, tuple) or not t:
             raise Unsupported('expression %s' % (t,))
+        try:
+            if t in env:                      # a whole expression given a value by the caller (e.g. ('.size', 'points'))
+                return env[t]
+        except TypeError:
+            pass
         op = t[0]
+        if op in self.hooks:
+            return self.hooks[op](t, env)
         if op in ('[]', '()') and len(t) == 3 and (t[2] in self.index_vars or isinstance(t[2], int)):
             return self.ev(t[1], env)
         if op in TRANSPARENT and len(t) == 2:
             return self.ev(t[1], env)
+        if isinstance(op, str) and op.startswith('std::numeric_limits<') and len(t) == 1:
+            ty, _, member = op[len('std::numeric_limits<'):].rpartition('>::')
+            tab = MACHINE.get(ty.strip())
+            if tab and member in tab:
+                return tab[member]
+            raise Unsupported('machine constant %s' % op)
         if op in CMP and len(t) == 3:
             return CMP[op](self.ev(t[1], env), self.ev(t[2], env))
         if op in ARI and len(t) == 3:
